@@ -17,6 +17,19 @@ CLAIMED = {
         technique='Coq proof (Permutation invariance, antisymmetry of less-nested via split/join inverses) + '
                   'differential correspondence via vm_compute',
         ref='DESIGN.md section 5, C10'),
+    'C11': dict(
+        category='proof',
+        text='The scanner model of the regex substitution is proved to meet an independent inductive description of '
+             'placeholder occurrences (which is proved functional), for all strings and all global_vars; undefined '
+             'placeholders and brace-free text are untouched; the traversal substitutes every string leaf at any depth '
+             'of lists and dict values and nothing else; applying it again with any global_vars is the identity; the '
+             'persistence repr of a substituted leaf is the source text. Copy semantics, str behaviour and Config-level '
+             'application (context values, uses paths) are tied by the correspondence and checked by the oracle.',
+        note="Python's re for r'{(.*?)}' is modelled by a hand-written scanner (trusted via correspondence on "
+             'brace/newline-heavy strings); ReprStr copy/str behaviour is a heap/runtime matter checked by the harness oracle',
+        technique='Coq proof (strong induction against an inductive spec relation; nested induction on values) + '
+                  'differential correspondence via vm_compute',
+        ref='DESIGN.md section 5, C11'),
     'C17': dict(
         category='proof',
         text='Theorems over all lists, chunk sizes, thread counts and all per-chunk completion orders (Permutation '
